@@ -186,6 +186,15 @@ static std::string op(const Toks& t) {
       if (o == "p.set") p.setValue(D(t[2]));
       else if (o == "p.prec") p.setPrecision(D(t[2]));
       else if (o == "p.setc") p.setConstraint(carg(t[2]));
+      else if (o == "p.con") {
+        // constraint(): const and non-const overloads, NullPointerException when there is none
+        try {
+          const Parameter& cp = p;
+          const IntervalConstraint& a = dynamic_cast<const IntervalConstraint&>(cp.constraint());
+          IntervalConstraint& a2 = dynamic_cast<IntervalConstraint&>(p.constraint());
+          return &a == &a2 ? showIC(a) : std::string("different-objects");
+        } catch (NullPointerException&) { return "exc:bpp"; }
+      }
       else if (o == "p.setcs") p.setConstraint(sarg(t[2]));
       else if (o == "p.getc") {
         // the handle a non-const parameter hands out (no const_cast): Parameter.h:218
